@@ -18,7 +18,7 @@ struct LDelivery {
   int pid = 0; Sink *out = nullptr; bool exited = false; int status = -1;
   std::vector<LAction> actions;
   std::vector<std::string> new_files;    // maildir entries published by this delivery (canonical paths)
-  bool fault_hit = false; bool qmail_read_fault = false;
+  bool fault_hit = false; bool qmail_read_fault = false; bool chdir_fault = false;
   std::string user() const { return args[0]; } std::string home() const { return args[1]; } std::string local() const { return args[2]; }
   std::string dash() const { return args[3]; } std::string ext() const { return args[4]; } std::string host() const { return args[5]; }
   std::string sender() const { return args[6]; } std::string aliasempty() const { return args[7]; }
@@ -163,6 +163,7 @@ struct WorldL : World {
     if (e.call == C_FORK && e.ret > 0) { LDelivery *d = owner(p); if (d) bypid[(int)e.ret] = d; return; }
     LDelivery *d = owner(p); if (!d) return;
     if (e.injected) d->fault_hit = true;
+    if (e.injected && e.call == C_CHDIR) d->chdir_fault = true;
     if (e.injected && e.call == C_READ && e.path.find("/.qmail") != std::string::npos) d->qmail_read_fault = true;
     bool is_child = p->role == "qmail-local/child";
     if (p->role == "qmail-local" && e.call == C_EXIT && e.pid == d->pid) { d->exited = true; d->status = (int)e.a; on_delivery_exit(d); return; }
@@ -307,6 +308,8 @@ struct WorldL : World {
       res->nontrivial = true; k->probe("dotqmail_read_error");
       if (sig || code != 111 || !d->actions.empty()) { std::string acts; for (auto &a : d->actions) acts += a.kind + "(" + printable(a.arg, 30) + ") "; violate("C13.read-error-not-deferred", d->id + ": reading the .qmail file failed, qmail-local exited " + std::to_string(code) + " after { " + acts + "}; expected a temporary failure with nothing executed"); return; }
     }
+    // the home directory could not be entered (file server away, permissions): temporary failure, nothing acted on
+    if (c13 && d->chdir_fault && !had_crash) { res->nontrivial = true; k->probe("home_unreachable"); if (sig || code != 111 || !d->actions.empty()) { violate("C13.home-unreachable-not-deferred", d->id + ": chdir to the home directory failed, qmail-local exited " + std::to_string(code) + " after " + std::to_string(d->actions.size()) + " actions"); return; } }
     if (c13 && !d->fault_hit && !had_crash) {
       RefResult R = ref_interpret(d);
       k->probe("dotqmail_interpreted");
